@@ -27,9 +27,10 @@ const (
 	opAbandon
 	opInsertChain // nested prefixes q/len, q/len+1, ... (deep paths: one node per stored prefix)
 	opDeleteChain
+	opInsertComb // the all-zeros key and N full-length keys with one bit set (a left spine with a right sibling at every level)
 )
 
-var opNames = []string{"begin", "insert", "delete", "read", "iter", "commit", "abandon", "insertChain", "deleteChain"}
+var opNames = []string{"begin", "insert", "delete", "read", "iter", "commit", "abandon", "insertChain", "deleteChain", "insertComb"}
 
 type Op struct {
 	K    int    `json:"k"`
@@ -389,6 +390,28 @@ func run(c Case) (res result) {
 				err = fail("insert", "Insert(%x/%d) returned %v", q.bits, q.len, e)
 			}
 			txModel[q] = o.Val
+		case opInsertComb:
+			if tx == nil {
+				begin(len(versions)-1, o.B%2 == 1)
+			}
+			max := u.width * 8
+			var teeth []pfx
+			teeth = append(teeth, u.norm(0, 0, max))
+			for i := 0; i < o.N && o.Len+i < max; i++ {
+				teeth = append(teeth, u.norm(0, 1+o.Len+i, max))
+			}
+			for i, p := range teeth {
+				if e := tx.Insert(u.key(p), o.Val+i); e != nil {
+					err = fail("insert", "Insert(%x/%d) returned %v", p.bits, p.len, e)
+				}
+				txModel[p] = o.Val + i
+			}
+			// lower-bound searches that leave many right siblings pending
+			all := txModel.sorted()
+			for i := 0; i < len(teeth) && err == nil; i += 1 + len(teeth)/8 {
+				err = readCheck(tx, all, 5, teeth[i], teeth[i], "in-flight txn after a comb insert")
+			}
+			res.classes = append(res.classes, "comb")
 		case opInsertChain, opDeleteChain:
 			if tx == nil {
 				begin(len(versions)-1, o.B%2 == 1)
@@ -547,7 +570,7 @@ func genCase(t *rapid.T) Case {
 	kinds := []int{opBegin, opInsert, opInsert, opInsert, opInsert, opDelete, opDelete, opRead, opRead, opRead, opIter, opCommit, opCommit, opAbandon}
 	if c.Width >= 4 && rapid.IntRange(0, 2).Draw(t, "chains") == 0 {
 		// deep tries: runs of nested prefixes (more than 32 nodes on one path)
-		kinds = append(kinds, opInsertChain, opInsertChain, opDeleteChain, opDelete)
+		kinds = append(kinds, opInsertChain, opInsertChain, opDeleteChain, opDelete, opInsertComb)
 	}
 	genOp := rapid.Custom(func(t *rapid.T) Op {
 		o := Op{K: rapid.SampledFrom(kinds).Draw(t, "k")}
@@ -561,6 +584,10 @@ func genCase(t *rapid.T) Case {
 			o.Flip = 1 + rapid.IntRange(0, max-1).Draw(t, "flip")
 		}
 		o.Val = rapid.IntRange(0, 9).Draw(t, "val")
+		if o.K == opInsertComb {
+			o.N = rapid.SampledFrom([]int{3, 31, 32, 33, 40, 64, 100}).Draw(t, "teeth")
+			o.Len = rapid.SampledFrom([]int{0, 0, 1, 8, 20}).Draw(t, "combFrom")
+		}
 		if o.K == opInsertChain || o.K == opDeleteChain {
 			o.N = rapid.SampledFrom([]int{1, 2, 5, 30, 33, 34, 40, 70}).Draw(t, "chainLen")
 			o.Len = rapid.SampledFrom([]int{0, 0, 1, 2, 20, 31, 32, 60}).Draw(t, "chainFrom")
@@ -573,7 +600,7 @@ func genCase(t *rapid.T) Case {
 	return c
 }
 
-const rule = "histories of 1..40 operations on lpm.Trie over 8/16/32/128-bit universes (prefix lengths 0..max, bit patterns sharing long common prefixes): inserts, deletes, runs of up to 70 nested prefixes (paths deeper than 32 nodes), reads (Len, LookupExact, Lookup of full-length keys and of stored prefixes, Prefix, LowerBound, All) and partially consumed iterators inside transactions, commits (with Clear/Reuse of the transaction object), abandons and branches off any earlier version; all results compared with a map model ordered by (bits, length) and every committed trie and retained iterator re-read after every step. Non-trivial = a deletion left an imaginary fork (deleted prefix with stored descendants on both sides) and a Lookup/Prefix/LowerBound query diverged inside a compressed path; distinct by case encoding."
+const rule = "histories of 1..40 operations on lpm.Trie over 8/16/32/128-bit universes (prefix lengths 0..max, bit patterns sharing long common prefixes): inserts, deletes, runs of up to 70 nested prefixes (paths deeper than 32 nodes), combs (all-zeros key plus up to 100 single-bit keys: a left spine with a right sibling at every level), reads (Len, LookupExact, Lookup of full-length keys and of stored prefixes, Prefix, LowerBound, All) and partially consumed iterators inside transactions, commits (with Clear/Reuse of the transaction object), abandons and branches off any earlier version; all results compared with a map model ordered by (bits, length) and every committed trie and retained iterator re-read after every step. Non-trivial = a deletion left an imaginary fork (deleted prefix with stored descendants on both sides) and a Lookup/Prefix/LowerBound query diverged inside a compressed path; distinct by case encoding."
 
 func TestC13Trie(t *testing.T) {
 	const test = "TestC13Trie"
